@@ -195,6 +195,12 @@ Theorem C08_golden_ticket_solves_parent : forall solution_lz difficulty,
   difficulty <= solution_lz.
 Proof. exact golden_ticket_solves_sound. Qed.
 
+(* the golden-ticket section of Block::validate as a whole: no unpaid carry-over, a
+   non-zero ticket key (the miner share is paid to it), and the solution against the parent *)
+Theorem C08_golden_ticket_section_sound : forall k u lz d,
+  d < 4294967296 -> golden_ticket_section_ok k u lz d = true -> u = 0 /\ k <> 0 /\ d <= lz.
+Proof. exact golden_ticket_section_sound. Qed.
+
 (* ================================================================== *)
 (* non-vacuity                                                         *)
 
